@@ -26,6 +26,7 @@ and the sample mean / unbiased standard deviation of these over the samples.
 """
 import itertools
 import math
+import random
 from functools import reduce
 from operator import add
 
@@ -217,10 +218,13 @@ def _check_group(vals, grp, expected, literal_keys):
     for perm in itertools.permutations(range(len(expected))):
         if all(table[i][perm[i]] is None for i in range(len(reps))):
             return
-    # report the most specific mismatch: the identity assignment in sorted-key order
-    i = next(i for i in range(len(reps)) if table[i][i] is not None)
-    raise Violation(f"{grp}:{table[i][i][0]}", f"no one-to-one assignment of reported keys {rkeys} to the oracle; "
-                                                f"key {rkeys[i]!r} vs entry {i}: {table[i][i][1]}")
+    # report a reported key that fits no oracle entry, against the entry with the same counts if there is one
+    rows = [i for i in range(len(reps)) if all(t is not None for t in table[i])] or list(range(len(reps)))
+    i = rows[0]
+    js = [j for j in range(len(expected)) if table[i][j] is not None and table[i][j][0] != "counts"]
+    j = js[0] if js else next(j for j in range(len(expected)) if table[i][j] is not None)
+    raise Violation(f"{grp}:{table[i][j][0]}", f"no one-to-one assignment of reported keys {rkeys} to the oracle; "
+                                                f"key {rkeys[i]!r} vs entry {j}: {table[i][j][1]}")
 
 
 def _check_table(text, text2, vals):
@@ -345,21 +349,20 @@ def _gauss_parts(rec, lat, doms, multi, nps):
     return parts
 
 
-def _build_gauss(rec, parts):
-    comb = rec["combine"]
-    if comb in ("single", "sum"):
-        lhs = []
-        for j, P in enumerate(parts):
-            icov = None if P["ic"] is None else ift.makeOp(_field(P["dom"], P["ic"]), sampling_dtype=P["dt"])
-            e = ift.GaussianEnergy(data=_field(P["dom"], P["d"]), inverse_covariance=icov)
-            late = rec.get("name_late", False)
-            if P["name"] is not None and not late:
-                e.name = P["name"]
-            e = e @ P["op"]
-            if P["name"] is not None and late:
-                e.name = P["name"]
-            lhs.append(e)
-        return reduce(add, lhs)
+def _single_energy(rec, P):
+    icov = None if P["ic"] is None else ift.makeOp(_field(P["dom"], P["ic"]), sampling_dtype=P["dt"])
+    e = ift.GaussianEnergy(data=_field(P["dom"], P["d"]), inverse_covariance=icov)
+    late = rec.get("name_late", False)
+    if P["name"] is not None and not late:
+        e.name = P["name"]
+    e = e @ P["op"]
+    if P["name"] is not None and late:
+        e.name = P["name"]
+    return e
+
+
+def _multi_energy(parts):
+    """one GaussianEnergy on a MultiDomain data space with keys d0, d1, ..."""
     keys = [f"d{j}" for j in range(len(parts))]
     ddom = ift.MultiDomain.make({k: P["dom"] for k, P in zip(keys, parts)})
     data = ift.MultiField.from_dict({k: _field(P["dom"], P["d"]) for k, P in zip(keys, parts)}, ddom)
@@ -371,6 +374,20 @@ def _build_gauss(rec, parts):
                                     for k, P in zip(keys, parts)}, ddom)
     sdt = dts if len(set(dts.values())) > 1 else list(dts.values())[0]
     return ift.GaussianEnergy(data=data, inverse_covariance=ift.makeOp(icf, sampling_dtype=sdt)) @ model
+
+
+def _build_gauss(rec, parts):
+    comb = rec["combine"]
+    if comb in ("single", "sum"):
+        return reduce(add, [_single_energy(rec, P) for P in parts])
+    if comb == "multi":
+        return _multi_energy(parts)
+    # sum_multi: the first `group` parts form one energy with MultiDomain data, the others are single energies
+    g = rec["group"]
+    first = _multi_energy(parts[:g])
+    if rec.get("gname"):
+        first.name = rec["gname"]
+    return reduce(add, [first] + [_single_energy(rec, P) for P in parts[g:]])
 
 
 def _classes(prefix, exps, ns):
@@ -427,6 +444,60 @@ def check_classic_gauss(rec):
 
 
 # ---------------------------------------------------------------------- strategies (classic)
+class _Ch:
+    """structural choices of a recipe.  With seeded=True they come from a random.Random seeded by ONE drawn
+    integer (sub-checks with few, expensive cases: Hypothesis' own generator starts from near-minimal,
+    strongly correlated structures, which would leave whole classes empty in a 40-case shard); the recipe
+    still spells out every choice, so a check never depends on that integer."""
+
+    def __init__(self, draw, seeded):
+        self.draw = draw
+        self.rng = random.Random(draw(st.integers(0, 2 ** 62))) if seeded else None
+
+    def pick(self, opts):
+        return self.rng.choice(list(opts)) if self.rng else self.draw(st.sampled_from(list(opts)))
+
+    def flag(self):
+        return self.pick([False, True])
+
+    def rint(self, lo, hi):
+        return self.pick(range(lo, hi + 1))
+
+    def ints(self, lo, hi, n):
+        if self.rng:
+            return [self.rng.randint(lo, hi) for _ in range(n)]
+        return self.draw(st.lists(st.integers(lo, hi), min_size=n, max_size=n))
+
+    def perm(self, lst):
+        return self.rng.sample(list(lst), len(lst)) if self.rng else list(self.draw(st.permutations(list(lst))))
+
+    def dy(self):
+        return self.rng.randint(-32, 32) / 8 if self.rng else self.draw(_DY)
+
+    def dynz(self):
+        if self.rng:
+            return self.rng.choice([-1, 1]) * self.rng.randint(1, 32) / 8
+        return self.draw(_DYNZ)
+
+    def cdynz(self):
+        return {"re": self.dynz(), "im": self.dy()}
+
+    def vals(self, shape, cplx, zero_rich, nz=False):
+        """flat list of dyadic numbers (multiples of 1/8 in [-4, 4]); zero_rich: about a third exact zeros;
+        nz: real (part) bounded away from zero"""
+        n = _size(shape)
+        if self.rng is None:
+            return self.draw(st.lists(_elem(cplx, zero_rich, nz), min_size=n, max_size=n))
+        out = []
+        for _ in range(n):
+            if zero_rich and self.rng.random() < 1 / 3:
+                out.append({"re": 0.0, "im": 0.0} if cplx else 0.0)
+            else:
+                re_ = self.dynz() if nz else self.dy()
+                out.append({"re": re_, "im": self.dy()} if cplx else re_)
+        return out
+
+
 SHAPES = [[1], [2], [3], [4], [5], [2, 2], [2, 3]]
 _DY = st.integers(-32, 32).map(lambda k: k / 8)
 _DYNZ = st.tuples(st.integers(1, 32), st.booleans()).map(lambda t: (-t[0] if t[1] else t[0]) / 8)
@@ -440,25 +511,20 @@ def _elem(cplx, zero_rich, nz=False):
     return st.one_of(base, base, st.just(0.0)) if zero_rich else base
 
 
-def _vals(draw, shape, cplx, zero_rich, nz=False):
-    n = _size(shape)
-    return draw(st.lists(_elem(cplx, zero_rich, nz), min_size=n, max_size=n))
-
-
-def _draw_samples(draw, lat, multi, zero_rich, nmax=5, nz=False):
-    ns = draw(st.integers(1, nmax))
-    kind = draw(st.sampled_from(["list", "list", "resid"]))
+def _draw_samples(draw, lat, multi, zero_rich, nmax=5, nz=False, ch=None):
+    ch = ch or _Ch(draw, False)
+    ns = ch.rint(1, nmax)
+    kind = ch.pick(["list", "list", "resid"])
     if kind == "list":
-        return {"kind": "list", "vals": [{L["k"]: _vals(draw, L["shape"], L["cplx"], zero_rich, nz) for L in lat}
+        return {"kind": "list", "vals": [{L["k"]: ch.vals(L["shape"], L["cplx"], zero_rich, nz) for L in lat}
                                          for _ in range(ns)]}
-    mean = {L["k"]: _vals(draw, L["shape"], L["cplx"], zero_rich, nz) for L in lat}
+    mean = {L["k"]: ch.vals(L["shape"], L["cplx"], zero_rich, nz) for L in lat}
     keys = [L["k"] for L in lat]
-    if multi and len(keys) > 1 and draw(st.booleans()):
-        sub = draw(st.lists(st.sampled_from(keys), min_size=1, max_size=len(keys), unique=True))
-        keys = sorted(sub)
+    if multi and len(keys) > 1 and ch.flag():
+        keys = sorted(k for k in keys if ch.flag()) or keys[:1]
     spec = {L["k"]: L for L in lat}
-    res = [{k: _vals(draw, spec[k]["shape"], spec[k]["cplx"], zero_rich) for k in keys} for _ in range(ns)]
-    return {"kind": "resid", "mean": mean, "res": res, "neg": [draw(st.booleans()) for _ in range(ns)]}
+    res = [{k: ch.vals(spec[k]["shape"], spec[k]["cplx"], zero_rich) for k in keys} for _ in range(ns)]
+    return {"kind": "resid", "mean": mean, "res": res, "neg": [ch.flag() for _ in range(ns)]}
 
 
 def _sample0(samples, key):
@@ -495,59 +561,62 @@ def _model_py(model, x):
 
 @st.composite
 def gauss_recipes(draw, tier, cross=False):
-    nlat = draw(st.sampled_from([1, 1, 2, 3]))
-    any_cplx = draw(st.integers(0, 2)) == 0
+    ch = _Ch(draw, cross)
+    nlat = ch.pick([1, 1, 2, 3])
+    any_cplx = ch.pick([False, False, True])
     lat = []
     for i in range(nlat):
-        lat.append({"k": "abc"[i], "shape": draw(st.sampled_from(SHAPES)), "kind": draw(st.sampled_from(["U", "RG"])),
-                    "cplx": bool(any_cplx and draw(st.booleans()))})
-    multi = nlat > 1 or draw(st.booleans())
-    zero_rich = draw(st.booleans())
-    with_nan = (not cross) and draw(st.integers(0, 2)) > 0
-    samples = _draw_samples(draw, lat, multi, zero_rich and not cross, nz=cross)
+        lat.append({"k": "abc"[i], "shape": ch.pick(SHAPES), "kind": ch.pick(["U", "RG"]),
+                    "cplx": bool(any_cplx and ch.flag())})
+    multi = nlat > 1 or ch.flag()
+    zero_rich = ch.pick([True, True, False]) if cross else ch.flag()
+    with_nan = (not cross) and ch.pick([True, True, False])
+    samples = _draw_samples(draw, lat, multi, zero_rich and not cross, nz=cross, ch=ch)
     if cross:
-        comb = draw(st.sampled_from(["single", "multi"])) if nlat == 1 else "multi"
+        comb = ch.pick(["single", "multi"]) if nlat == 1 else "multi"
         ndata = nlat
     else:
-        comb = draw(st.sampled_from(["sum", "sum", "multi"] if nlat > 1 else ["single", "single", "sum", "multi"]))
-        ndata = nlat if comb == "single" else draw(st.integers(nlat, 3))
+        comb = ch.pick(["sum", "sum", "multi", "sum_multi"] if nlat > 1
+                       else ["single", "single", "sum", "multi", "sum_multi"])
+        ndata = nlat if comb == "single" else ch.rint(max(nlat, 2) if comb == "sum_multi" else nlat, 3)
     data = []
-    names = draw(st.lists(st.sampled_from(["alpha", "beta", "lh", "my likelihood", "x"]), min_size=3, max_size=3,
-                          unique=True))
+    names = ch.perm(["alpha", "beta", "lh", "my likelihood", "x"])[:3]
     for j in range(ndata):
-        src = j if j < nlat else draw(st.integers(0, nlat - 1))
+        src = j if j < nlat else ch.rint(0, nlat - 1)
         L = lat[src]
         n = _size(L["shape"])
         if L["cplx"]:
-            model = draw(st.sampled_from([["id"], ["sq"], ["lin", None]]))
+            model = ch.pick([["id"], ["sq"], ["lin", None]])
             if model[0] == "lin":
-                model = ["lin", draw(st.fixed_dictionaries({"re": _DYNZ, "im": _DY}))]
+                model = ["lin", ch.cdynz()]
         else:
-            model = draw(st.sampled_from([["id"], ["sq"], ["exp"], ["lin", None]]))
+            model = ch.pick([["id"], ["sq"], ["exp"], ["lin", None]])
             if model[0] == "lin":
-                model = ["lin", draw(_DYNZ)]
+                model = ["lin", ch.dynz()]
         mvals = [1.0, 1.0, 1.0, 0.0] + ([None] if with_nan else [])
-        mask = draw(st.one_of(st.none(), st.lists(st.sampled_from(mvals), min_size=n, max_size=n)))
-        d = _vals(draw, L["shape"], L["cplx"], False)
+        mask = [ch.pick(mvals) for _ in range(n)] if ch.flag() else None
+        d = ch.vals(L["shape"], L["cplx"], False)
         if zero_rich and not cross:
             # plant exact coincidences model(sample 0) == data -> exact zero residuals in one sample only
             y0 = [_model_py(model, x) for x in _sample0(samples, L["k"])]
-            hit = draw(st.lists(st.integers(0, 3), min_size=n, max_size=n))
+            hit = ch.ints(0, 3, n)
             d = [_enc(y, L["cplx"]) if (h == 0 and y is not None) else v for v, y, h in zip(d, y0, hit)]
         if with_nan:
-            nanpos = draw(st.lists(st.integers(0, 4), min_size=n, max_size=n))
+            nanpos = ch.ints(0, 4, n)
             d = [None if p == 0 else v for v, p in zip(d, nanpos)]
-        ivals = st.sampled_from([0.25, 0.5, 1.0, 1.0, 2.0, 2.25, 4.0] + ([0.0] if zero_rich else [])
-                                + ([None] if with_nan else []))
-        icov = draw(st.one_of(st.none(), st.lists(ivals, min_size=n, max_size=n)))
+        ivals = [0.25, 0.5, 1.0, 1.0, 2.0, 2.25, 4.0] + ([0.0, 0.0] if zero_rich else []) + ([None] if with_nan else [])
+        icov = [ch.pick(ivals) for _ in range(n)] if ch.pick([True, True, False]) else None
         name = None
-        if not cross and comb != "multi" and draw(st.booleans()):
-            name = names[j]
+        if not cross and comb != "multi" and ch.flag():
+            name = names[j]            # (ignored for the grouped parts of "sum_multi")
         data.append({"src": src, "model": model, "mask": mask, "d": d, "icov": icov, "name": name})
     rec = {"latent": lat, "multi": multi, "combine": comb, "data": data, "samples": samples,
-           "name_late": draw(st.booleans())}
+           "name_late": ch.flag()}
     if cross:
-        rec["map"] = draw(st.sampled_from(["lmap", "vmap", "smap"]))
+        rec["map"] = ch.pick(["lmap", "vmap", "smap"])
+    if comb == "sum_multi":
+        rec["group"] = ch.rint(1, ndata - 1)
+        rec["gname"] = ch.pick([None, "grp"])
     return rec
 
 
@@ -609,6 +678,7 @@ def check_classic_other(rec):
 
 @st.composite
 def other_recipes(draw, tier):
+    ch = _Ch(draw, False)
     kind = draw(st.sampled_from(["poisson", "poisson", "bernoulli", "studentt", "varcov"]))
     shape = draw(st.sampled_from(SHAPES))
     n = _size(shape)
@@ -617,8 +687,8 @@ def other_recipes(draw, tier):
         lat.append({"k": "b", "shape": shape, "kind": lat[0]["kind"], "cplx": False})
     multi = len(lat) > 1 or draw(st.booleans())
     zero_rich = draw(st.booleans())
-    with_nan = draw(st.integers(0, 2)) > 0
-    samples = _draw_samples(draw, lat, multi, zero_rich)
+    with_nan = draw(st.sampled_from([True, True, False]))
+    samples = _draw_samples(draw, lat, multi, zero_rich, ch=ch)
     rec = {"lh": kind, "latent": lat, "multi": multi, "samples": samples,
            "name": draw(st.sampled_from([None, None, "counts"]))}
     x0 = _sample0(samples, "a")
@@ -629,7 +699,7 @@ def other_recipes(draw, tier):
         rec["mask"] = draw(nanmask) if (with_nan and draw(st.booleans())) else None
         d = draw(st.lists(st.integers(0, 17), min_size=n, max_size=n))
         if rec["model"][0] == "sqp1":     # plant lambda == d (exact zero residual) where lambda is an integer
-            hit = draw(st.lists(st.integers(0, 2), min_size=n, max_size=n))
+            hit = ch.ints(0, 2, n)
             d = [int(x * x + 1) if (h == 0 and float(x * x).is_integer()) else v for v, x, h in zip(d, x0, hit)]
         else:
             d = [1 if (x == 0 and zero_rich) else v for v, x in zip(d, x0)]
@@ -639,14 +709,14 @@ def other_recipes(draw, tier):
         rec["d"] = draw(st.lists(st.integers(0, 1), min_size=n, max_size=n))
     else:
         rec["model"] = draw(st.sampled_from([["id"], ["sq"], ["exp"], ["lin", 0.5], ["lin", -2.0]]))
-        rec["mask"] = draw(st.one_of(st.none(), zmask))
-        d = _vals(draw, shape, False, False)
+        rec["mask"] = draw(zmask) if draw(st.booleans()) else None
+        d = ch.vals(shape, False, False)
         if zero_rich:
             y0 = [_model_py(rec["model"], x) for x in x0]
-            hit = draw(st.lists(st.integers(0, 2), min_size=n, max_size=n))
+            hit = ch.ints(0, 2, n)
             d = [float(y) if (h == 0 and y is not None) else v for v, y, h in zip(d, y0, hit)]
         if with_nan:
-            nanpos = draw(st.lists(st.integers(0, 4), min_size=n, max_size=n))
+            nanpos = ch.ints(0, 4, n)
             d = [None if p == 0 else v for v, p in zip(d, nanpos)]
         rec["d"] = d
         if kind == "studentt":
@@ -819,23 +889,25 @@ JSHAPES = [[3], [4], [2, 3], [1], []]
 
 @st.composite
 def jax_tree_recipes(draw, tier):
-    cont = draw(st.sampled_from(["array", "dict", "dict", "vector", "vector", "nested", "tuple"]))
-    nl = 1 if cont == "array" else draw(st.integers(1, 3))
-    any_cplx = draw(st.integers(0, 2)) == 0
-    specs = [{"shape": draw(st.sampled_from(JSHAPES)), "cplx": bool(any_cplx and draw(st.booleans()))}
-             for _ in range(nl)]
-    inp = draw(st.sampled_from(["samples_pos", "samples_pos", "samples_nopos", "position"]))
-    ns = draw(st.sampled_from([0, 1, 2, 2, 3, 4, 5]))
+    ch = _Ch(draw, True)
+    cont = ch.pick(["array", "dict", "dict", "vector", "vector", "nested", "tuple"])
+    nl = 1 if cont == "array" else ch.rint(1, 3)
+    any_cplx = ch.flag()
+    specs = [{"shape": ch.pick(JSHAPES), "cplx": bool(any_cplx and ch.flag())} for _ in range(nl)]
+    inp = ch.pick(["samples_pos", "samples_pos", "samples_pos", "samples_nopos", "position"])
+    ns = ch.pick([0, 1, 2, 2, 3, 3, 4, 5])
     if inp == "samples_nopos" and ns == 0:
         ns = 2
-    zr = draw(st.booleans())
-    pos = None if inp == "samples_nopos" else [_vals(draw, s["shape"], s["cplx"], zr) for s in specs]
-    smp = [[_vals(draw, s["shape"], s["cplx"], zr) for s in specs] for _ in range(ns)]
-    func = draw(st.sampled_from([None, None, "sq", "first", "pair"]))
+    if inp == "position":
+        ns = 0
+    zr = ch.flag()
+    pos = None if inp == "samples_nopos" else [ch.vals(s["shape"], s["cplx"], zr) for s in specs]
+    smp = [[ch.vals(s["shape"], s["cplx"], zr) for s in specs] for _ in range(ns)]
+    func = ch.pick([None, None, "sq", "first", "pair"])
     if func in ("first", "pair") and cont == "tuple":
         func = "sq"
     return {"container": cont, "leaves": specs, "input": inp, "nsamp": ns, "pos": pos, "smp": smp, "func": func,
-            "map": draw(st.sampled_from(["lmap", "vmap", "smap"])), "wrapper": draw(st.booleans())}
+            "map": ch.pick(["lmap", "vmap", "smap"]), "wrapper": ch.flag()}
 
 
 # ====================================================================== sub-check 4: JAX likelihoods
@@ -913,32 +985,33 @@ def check_jax_lh(rec):
 
 @st.composite
 def jax_lh_recipes(draw, tier):
-    n = draw(st.sampled_from([3, 4]))
-    cplx = draw(st.integers(0, 3)) == 0
+    ch = _Ch(draw, True)
+    n = ch.pick([3, 4])
+    cplx = ch.pick([False, False, False, True])
     kinds = ["gauss"] if cplx else ["gauss", "poisson", "studentt", "varcov"]
-    nparts = draw(st.sampled_from([1, 1, 2]))
-    ns = draw(st.sampled_from([0, 1, 2, 3, 5]))
-    pos = {k: _vals(draw, [n], cplx, False) for k in ("a", "b")}
-    smp = [{k: _vals(draw, [n], cplx, False) for k in ("a", "b")} for _ in range(ns)]
+    nparts = ch.pick([1, 1, 2])
+    ns = ch.pick([0, 1, 2, 3, 3, 5])
+    pos = {k: ch.vals([n], cplx, False) for k in ("a", "b")}
+    smp = [{k: ch.vals([n], cplx, False) for k in ("a", "b")} for _ in range(ns)]
     parts = []
     for _ in range(nparts):
-        kind = draw(st.sampled_from(kinds))
+        kind = ch.pick(kinds)
         P = {"kind": kind}
         if kind == "poisson":
-            P["d"] = draw(st.lists(st.integers(0, 17), min_size=n, max_size=n))
-            P["sqp1"] = draw(st.booleans())
+            P["d"] = ch.ints(0, 17, n)
+            P["sqp1"] = ch.flag()
         else:
             P["cplx"] = cplx
-            P["d"] = _vals(draw, [n], cplx, False)
-            P["c"] = draw(st.fixed_dictionaries({"re": _DYNZ, "im": _DY})) if cplx else draw(_DYNZ)
+            P["d"] = ch.vals([n], cplx, False)
+            P["c"] = ch.cdynz() if cplx else ch.dynz()
             if kind in ("gauss", "studentt"):
-                P["icov"] = draw(st.lists(st.sampled_from([0.25, 1.0, 2.0, 2.25, 4.0, 0.0]), min_size=n, max_size=n))
-                P["quad"] = draw(st.booleans())
+                P["icov"] = [ch.pick([0.25, 1.0, 2.0, 2.25, 4.0, 0.0]) for _ in range(n)]
+                P["quad"] = ch.flag()
             if kind == "studentt":
-                P["dof"] = draw(st.sampled_from([1.0, 2.0, 3.0, 4.5]))
+                P["dof"] = ch.pick([1.0, 2.0, 3.0, 4.5])
         parts.append(P)
-    return {"n": n, "cplx": cplx, "parts": parts, "pos": pos, "smp": smp, "as_samples": draw(st.booleans()),
-            "map": draw(st.sampled_from(["lmap", "vmap", "smap"])), "wrapper": draw(st.booleans())}
+    return {"n": n, "cplx": cplx, "parts": parts, "pos": pos, "smp": smp, "as_samples": ch.flag(),
+            "map": ch.pick(["lmap", "vmap", "smap"]), "wrapper": ch.flag()}
 
 
 # ====================================================================== sub-check 5: classic vs JAX
@@ -1040,7 +1113,7 @@ SUBS = [
         jax=True, rule="non-trivial = >= 2 samples and (>= 2 output leaves or a complex leaf)"),
     Sub(name="jax_likelihoods", check=check_jax_lh, strategy=jax_lh_recipes, quick=90, thorough=3000, shards=3,
         jax=True, rule="non-trivial = >= 2 samples pushed through normalized_residual of a generated likelihood"),
-    Sub(name="cross_classic_jax", check=check_cross, strategy=cross_recipes, quick=120, thorough=4000, shards=3,
+    Sub(name="cross_classic_jax", check=check_cross, strategy=cross_recipes, quick=105, thorough=4000, shards=3,
         jax=True,
         rule="non-trivial = >= 2 samples and (a key with a constant non-zero number of ignored entries or a "
              "complex key), so that a documented conversion is exercised"),
